@@ -13,7 +13,7 @@ work = f"/tmp/mutwork/{name}"
 env = dict(os.environ, GOFLAGS="-mod=mod", GOPROXY="off")
 def sh(cmd, cwd=None, timeout=3600, extra=None):
     e = dict(env); e.update(extra or {})
-    p = subprocess.run(cmd, shell=True, cwd=cwd, env=e, capture_output=True, text=True, timeout=timeout)
+    p = subprocess.run(cmd, shell=True, cwd=cwd, env=e, capture_output=True, text=True, errors="replace", timeout=timeout)
     return p.returncode, (p.stdout + p.stderr)
 os.makedirs("/tmp/mutwork", exist_ok=True)
 sh(f"git -C /repo worktree remove --force {work}")
